@@ -11,7 +11,7 @@ CHECKS = {
          "end-to-end: every training set with n<=4 / n<=5 and batches of 1-2 queries, both weight branches, supervised and semi-supervised; state-injected: arbitrary forests with n<=5 / n<=6 nodes", "4 C03"),
  "C04": ("bounded symbolic execution (z3) of fit+predict(X_train) under tie-free weights; KNN part: symbolic clustering with force_prototype",
          "supervised: n<=4 / n<=5; KNN-supervised: forced clustering from an arbitrary clean graph state (n<=4 / n<=5) and the real fit end to end on a symbolic distance table (n=3 / n<=4)", "4 C04"),
- "C05": ("bounded symbolic execution (z3) of the real Heap: inductive step from an arbitrary invariant-satisfying symbolic state per operation, base case, and bounded operation histories with a ghost set",
+ "C05": ("bounded symbolic execution (z3) of the real Heap: inductive step from an arbitrary invariant-satisfying symbolic state per operation, base case, and bounded operation histories (re-insertion of returned identifiers included) with a ghost multiset",
          "inductive: every capacity 1..7 (quick) / 1..15 (thorough), both policies, every fill level, every operation with symbolic arguments => histories of any length for those capacities; nothing claimed for larger capacities", "4 C05"),
  "C11": ("bounded symbolic execution (z3) of paired fits: adjacent transpositions of the training order and order-isomorphic weight matrices, tie-free inputs",
          "n<=4 (quick) / n<=5 (thorough) training samples and one symbolic query", "4 C11"),
